@@ -253,12 +253,66 @@ def grammar_stream(R_, tier, rnd):
             R_.counterexample('identity', 'memo-returns-different-objects', {'text': text}, 'the same object', repr(v))
 
 
+def memo_structure(R_):
+    """the machine of Run.v only ever ADDS to the memo table (`upd`), once, when a keyed frame is popped: the runtime's _run
+    must do the same - one store `memo[key] = result`, no removal, no second table, no rebinding of `memo`"""
+    import ast
+    sys.path.insert(0, core.REPO)
+    from sourcer import Grammar
+    src = Grammar('start = "a"', include_source=True)._source_code
+    fn = [n for n in ast.walk(ast.parse(src)) if isinstance(n, ast.FunctionDef) and n.name == '_run']
+    R_.count('memo-structure', 'structure', nontrivial=True)
+    shape = 'no _run'
+    if fn:
+        f = fn[0]
+        binds = [n for n in ast.walk(f) if isinstance(n, ast.Name) and n.id == 'memo' and isinstance(n.ctx, ast.Store)]
+        stores = [n for n in ast.walk(f) if isinstance(n, ast.Subscript) and isinstance(n.value, ast.Name) and n.value.id == 'memo'
+                  and isinstance(n.ctx, ast.Store)]
+        dels = [n for n in ast.walk(f) if isinstance(n, ast.Subscript) and isinstance(n.value, ast.Name) and n.value.id == 'memo'
+                and isinstance(n.ctx, ast.Del)]
+        dels += [n for n in ast.walk(f) if isinstance(n, ast.Delete) and any(isinstance(t, ast.Name) and t.id == 'memo' for t in n.targets)]
+        methods = sorted({n.func.attr for n in ast.walk(f) if isinstance(n, ast.Call) and isinstance(n.func, ast.Attribute)
+                          and isinstance(n.func.value, ast.Name) and n.func.value.id == 'memo'})
+        passed = [n for n in ast.walk(f) if isinstance(n, ast.Call) and any(isinstance(a, ast.Name) and a.id == 'memo' for a in n.args)]
+        shape = f'bindings of memo: {len(binds)}, stores memo[...] = ...: {len(stores)}, deletions: {len(dels)}, methods called on memo: {methods}, memo passed to calls: {len(passed)}'
+    want = 'bindings of memo: 1, stores memo[...] = ...: 1, deletions: 0, methods called on memo: [], memo passed to calls: 0'
+    if shape != want:
+        R_.disagree('memo-structure', {'function': '_run of the generated runtime'}, shape, want)
+    else:
+        R_.traces += 1
+
+
+def long_input(R_, tier):
+    """at most once per position on LONG inputs too (a table that is trimmed, capped or rebuilt shows only there)"""
+    sys.path.insert(0, core.REPO)
+    from sourcer import Grammar
+    desc = ('```\nimport collections\nCALLS = collections.Counter()\ndef note(x):\n    CALLS[x] += 1\n    return x\n```\n'
+            'start = (Item* << "!") | (Item* << "?") | Item*\nItem = Pos >> "a"\nPos = "" |> `lambda _: note(1)`\n')
+    for n in ([60000, 300000] if tier == 'quick' else [60000, 300000, 1500000]):
+        g = Grammar(desc)
+        text = 'a' * n + '?'
+        R_.count('long-input', n, nontrivial=True)
+        try:
+            v = g.parse(text)
+            calls = g.CALLS[1]
+        except Exception as e:          # noqa
+            R_.counterexample('long-input', 'exception:' + type(e).__name__, {'grammar': desc, 'text': f'"a" * {n} + "?"'}, 'a list', str(e)[:120])
+            continue
+        if len(v) != n or calls > n + 1:
+            R_.counterexample('long-input', 'body-evaluated-twice', {'grammar': desc, 'text': f'"a" * {n} + "?"'},
+                              f'{n} items, the body of Pos evaluated at most {n + 1} times (once per position)', f'{len(v)} items, {calls} evaluations')
+        else:
+            R_.traces += 1
+
+
 def run(R):
     R.build()
     R.prove('Props/C07.v')
     rnd = random.Random(R.seed)
     machine_stream(R, R.tier, rnd)
     grammar_stream(R, R.tier, rnd)
+    memo_structure(R)
+    long_input(R, R.tier)
     R.assumptions += ['rule bodies are deterministic functions of (rule, position) (inline Python is pure)',
                       'Python object identity of memoised results is only observed on the implementation']
     return R.finish(
